@@ -124,6 +124,8 @@ class RSpace(object):
             offs = np.cumsum([0] + [p.size for p in self.parts])
             self.slices = [slice(int(offs[i]), int(offs[i + 1]))
                            for i in range(n)]
+            dts = set(p.dtype for p in self.parts)
+            self.dtype = 'float32' if 'float32' in dts else 'float64'
             self.leafW = (np.concatenate([p.leafW for p in self.parts])
                           if n else np.zeros(0))
             self.W = (np.concatenate([self.pw[i] * p.W
@@ -140,6 +142,9 @@ class RSpace(object):
             self.parts = None
             self.pw = None
             self.pkind = '-'
+            self.dtype = str(sd.get('dtype', 'float64'))
+            if self.dtype not in ('float32', 'float64'):
+                raise ValueError('reference: real float spaces only')
             self.shape = tuple(int(s) for s in sd['shape'])
             self.size = int(np.prod(self.shape, dtype=int))
             self.leafW = leaf_weights(sd).ravel().astype(float)
@@ -181,7 +186,9 @@ class RSpace(object):
         return 'none'
 
     def region(self):
-        return 'leaf={},prod={}'.format(self.leaf_kind(), self.prod_kind())
+        return 'leaf={},prod={}{}'.format(
+            self.leaf_kind(), self.prod_kind(),
+            ',dt=f32' if self.dtype == 'float32' else '')
 
     def inner(self, a, b):
         return float(np.sum(self.W.astype(LD) * np.asarray(a, dtype=LD) *
@@ -247,6 +254,30 @@ class RFunc(object):
 
 
 _STRICT = [False]
+_PREC = {'eps': EPS, 'shrink': SHRINK_K}
+
+
+def eps():
+    """Machine epsilon of the dtype of the space of the current case."""
+    return _PREC['eps']
+
+
+class precision(object):
+    """Context: all rounding tolerances of this module are stated in units
+    of eps(dtype) of the space under test; the allowance for the library's
+    deliberate threshold shrink is four times 10*resolution(dtype)."""
+
+    def __init__(self, dtype):
+        fi = np.finfo(np.dtype(dtype))
+        self.new = {'eps': float(fi.eps),
+                    'shrink': 40.0 * float(fi.resolution) / float(fi.eps)}
+
+    def __enter__(self):
+        self.old = dict(_PREC)
+        _PREC.update(self.new)
+
+    def __exit__(self, *a):
+        _PREC.update(self.old)
 
 
 class strict_membership(object):
@@ -267,8 +298,9 @@ class strict_membership(object):
 
 def _tol(n, scale):
     if _STRICT[0]:
-        return IND_K * max(int(n), 1) * EPS * max(float(scale), 1e-300)
-    return (IND_K * max(int(n), 1) + SHRINK_K) * EPS * \
+        return IND_K * max(int(n), 1) * _PREC['eps'] * \
+            max(float(scale), 1e-300)
+    return (IND_K * max(int(n), 1) + _PREC['shrink']) * _PREC['eps'] * \
         max(float(scale), 1e-300)
 
 
@@ -584,6 +616,10 @@ class RIndZero(RFunc):
         return np.zeros_like(d)
 
 
+def _doc_sum_rtol(sp):
+    return (1e-10 if sp.dtype == 'float64' else 1e-6) * sp.size
+
+
 class RIndSimplex(RIndicator):
     """{ x >= 0, sum_i x_i = diameter }  (plain sum of the entries)."""
     equality = True
@@ -591,8 +627,9 @@ class RIndSimplex(RIndicator):
     def __init__(self, sp, diameter=1.0, sum_rtol=None):
         RFunc.__init__(self, sp)
         self.r = float(diameter)
-        # documented default relative tolerance of the class (float64)
-        self.doc_rtol = (1e-10 * sp.size if sum_rtol is None
+        # documented default relative tolerance of the class:
+        # 1e-10 * size for float64 spaces, 1e-6 * size otherwise
+        self.doc_rtol = (_doc_sum_rtol(sp) if sum_rtol is None
                          else float(sum_rtol))
 
     def excess(self, v, amb=0.0):
@@ -603,11 +640,12 @@ class RIndSimplex(RIndicator):
         s = float(np.sum(v.astype(LD)))
         return max(neg, abs(s - self.r)), tol
 
-    def doc_excess(self, v):
+    def doc_excess(self, v, margin=1.0):
         """Documented membership test of the class (relative sum tol)."""
         v = np.asarray(v, dtype=float)
         s = float(np.sum(v.astype(LD)))
-        return (abs(s / self.r - 1) <= self.doc_rtol) and bool(np.all(v >= 0))
+        return (abs(s / self.r - 1) <= margin * self.doc_rtol) and \
+            bool(np.all(v >= 0))
 
     def retract(self, v):
         v = np.abs(np.array(v, dtype=float))
@@ -630,7 +668,7 @@ class RIndSum(RIndicator):
     def __init__(self, sp, sum_value=1.0, sum_rtol=None):
         RFunc.__init__(self, sp)
         self.c = float(sum_value)
-        self.doc_rtol = (1e-10 * sp.size if sum_rtol is None
+        self.doc_rtol = (_doc_sum_rtol(sp) if sum_rtol is None
                          else float(sum_rtol))
 
     def excess(self, v, amb=0.0):
@@ -639,9 +677,9 @@ class RIndSum(RIndicator):
         s = float(np.sum(v.astype(LD)))
         return abs(s - self.c), _tol(self.sp.size, sc)
 
-    def doc_excess(self, v):
+    def doc_excess(self, v, margin=1.0):
         s = float(np.sum(np.asarray(v, dtype=LD)))
-        return abs(s / self.c - 1) <= self.doc_rtol
+        return abs(s / self.c - 1) <= margin * self.doc_rtol
 
     def retract(self, v):
         v = np.array(v, dtype=float)
